@@ -3,6 +3,7 @@
 -/
 import Ps3.Model.Conn
 import Ps3.Proof.World
+import Ps3.Proof.Content
 namespace Ps3.Props.C02
 open Ps3 Ps3.Conn Ps3.Proto
 
@@ -27,6 +28,15 @@ theorem readFile_exact (cfg : Cfg) (w : World) (st : State) (ino : Nat) (f : Ino
       (w, st, ⟨readFileResultHdr (min limit (f.content.size - off)) ++ f.content.read off limit, false⟩) := by
   have hlen := Content.read_length f.content off limit
   simp [step, hro, hf, roSeekOk, roRead, hlen, Nat.not_le.mpr hoff]
+
+/-- **Served bytes are stored bytes**: what a read of `(off, limit)` delivers is the slice
+    `[off, min(off+limit, size))` of the file's one fixed content — for every size, offset and limit. -/
+theorem read_is_slice_of_content (c : Content) (off limit : Nat) : c.read off limit = slice c.all off limit :=
+  Proof.Content.read_eq_slice_all c off limit
+
+/-- consequently two reads that overlap agree on the overlap, and consecutive reads concatenate -/
+theorem reads_concatenate (c : Content) (off a b : Nat) : c.read off (a + b) = c.read off a ++ c.read (off + a) b := by
+  simp only [read_is_slice_of_content, slice_add]
 
 /-- The announced count is a 4-byte big-endian integer. -/
 theorem readFile_header (n : Nat) : readFileResultHdr n = beN 4 n := by
